@@ -66,12 +66,12 @@ class Check(HCheck):
             al.delete(0),
         ]
         d = 4 if thorough else 3
-        # long inbound chains (one source 9 times; 9 distinct sources), two corpora around
+        # long inbound chains (one source 70 times; 70 distinct sources), two corpora around
         # clear / reopen, queries in between: every sequence, no merging
-        heavy1 = al.links(*([(Ab, Ax)] * 9 + [(Az, Ab), (Axy, Ab), (A, Ab)]))
+        heavy1 = al.links(*([(Ab, Ax)] * 70 + [(Az, Ab), (Axy, Ab), (A, Ab)]))
         # same number and order of links as heavy1 (so that after a clear the lists land on the
         # same blocks) but nine distinct sources instead of one
-        heavy2 = al.links(*([(Az + b"p:%d|" % i, Ax) for i in range(9)] + [(Az, Ab), (Axy, Ab), (A, Ab)]))
+        heavy2 = al.links(*([(Az + b"p:%d|" % i, Ax) for i in range(70)] + [(Az, Ab), (Axy, Ab), (A, Ab)]))
         life = [heavy1, heavy2, al.links((Ab, Ax), (Az, Axy)), al.OBS, al.clear("domain", {}), al.REOPEN]
         return [
             Space(Cfg("domain"), life, 5 if thorough else 4, name="top/lifecycle", dedup=False),
